@@ -359,7 +359,14 @@ fn make_sig_err(kind: &str, msg: Option<&str>) -> Option<SignatureError> {
     Some(match kind {
         "ExpiredToken" => SignatureError::ExpiredToken(m),
         "IO" => SignatureError::IO(io::Error::new(io::ErrorKind::Other, m)),
-        "InternalServiceError" => SignatureError::InternalServiceError(m.into()),
+        // "wrap:<Kind>:<msg>": the payload is itself a SignatureError of that kind (a provider's own upstream failure)
+        "InternalServiceError" => match m.strip_prefix("wrap:").and_then(|r| r.split_once(':')) {
+            Some((k, inner_msg)) if k != "InternalServiceError" => match make_sig_err(k, Some(inner_msg)) {
+                Some(inner) => SignatureError::InternalServiceError(Box::new(inner)),
+                None => return None,
+            },
+            _ => SignatureError::InternalServiceError(m.into()),
+        },
         "InvalidBodyEncoding" => SignatureError::InvalidBodyEncoding(m),
         "InvalidClientTokenId" => SignatureError::InvalidClientTokenId(m),
         "InvalidContentType" => SignatureError::InvalidContentType(m),
@@ -1493,6 +1500,28 @@ fn op_authenticator(c: &Value) -> R {
             b.session_token(tok);
         }
         let auth = b.build().map_err(|e| format!("SigV4AuthenticatorBuilder::build failed: {e}"))?;
+        // optional history on the SAME authenticator object: earlier prevalidate calls (with their own arguments) whose outcome must not
+        // influence the main call; "main_on_clone": true runs the main call on a clone taken after the warm-up
+        let mut warm: Vec<Value> = Vec::new();
+        if let Some(Value::Array(ws)) = field(c, "warmup") {
+            for w in ws {
+                let wr = str_or(w, "region", region)?;
+                let wsv = str_or(w, "service", service)?;
+                let wt = instant(field(w, "server_time"), "warmup.server_time")?;
+                warm.push(match auth.prevalidate(wr, wsv, wt, mismatch) {
+                    Ok(()) => json!({"ok": null}),
+                    Err(e) => json!({"err": sig_err(&e)}),
+                });
+            }
+        }
+        let cloned;
+        let auth = if matches!(field(c, "main_on_clone"), Some(Value::Bool(true))) {
+            cloned = auth.clone();
+            &cloned
+        } else {
+            &auth
+        };
+        WARMUP.with(|w| *w.borrow_mut() = warm);
         Ok(Some(match call {
             "prevalidate" => match auth.prevalidate(region, service, server_time, mismatch) {
                 Ok(()) => json!({"ok": null}),
@@ -1519,7 +1548,12 @@ fn op_authenticator(c: &Value) -> R {
         Ok(Err(bad)) => return Err(bad),
         Err(p) => p,
     };
-    Ok(json!({"result": result, "provider": provider_log_json(&log), "polls": polls.get(), "logs": logs}))
+    let warm = WARMUP.with(|w| std::mem::take(&mut *w.borrow_mut()));
+    Ok(json!({"result": result, "warmup_results": warm, "provider": provider_log_json(&log), "polls": polls.get(), "logs": logs}))
+}
+
+thread_local! {
+    static WARMUP: std::cell::RefCell<Vec<Value>> = const { std::cell::RefCell::new(Vec::new()) };
 }
 
 // ------------------------------------------------------------------------------------------------
